@@ -164,6 +164,8 @@ class Gen:
     def in_progress(self, fidx):
         """Files that are still being read (DFS ancestors from the start file, imports in document order) when file
         fidx is read: a by-name lookup (ref=/base=) from fidx into one of them goes against the reading order."""
+        if getattr(self, "inline_all", False):
+            return set()
         if not hasattr(self, "_anc"):
             self._anc = {}
             seen = set()
@@ -350,6 +352,11 @@ class Gen:
             k = r.random()
             if k < 0.3:
                 f.enumeration = sorted(set(r.choice(["A", "b", "North East", "x-1", "é", "Q&A", "10", "None"]) for _ in range(r.randrange(1, 6))))
+                import random as _random
+                if len(f.enumeration) >= 2 and _random.Random("enum-dup:" + nm.xml).random() < 0.3:
+                    # the same value listed twice (legal, and harmless for the value space)
+                    f.enumeration = f.enumeration + [f.enumeration[0]]
+                    self.features.add("enumeration-with-a-repeated-value")
             elif k < 0.5:
                 f.min_length, f.max_length = r.randrange(0, 3), r.randrange(3, 12)
             elif k < 0.6:
@@ -459,6 +466,11 @@ class Gen:
         cfg = self.cfg
         n = r.randrange(cfg["files"][0], cfg["files"][1] + 1)
         self.make_files(n)
+        import random as _random
+        # a WSDL that holds all its schemas inline: decided now, because inside one document no schema is "still being read" when
+        # another refers to it — references may go both ways between the schemas
+        self.inline_all = bool(cfg["wsdl"]) and n >= 2 and \
+            _random.Random("inline:" + "|".join(f.uri or "" for f in self.files)).random() < cfg.get("p_inline_schemas", 0.0)
         plan = []
         for f in self.files:
             plan += [("simple", f.idx)] * r.randrange(cfg["simple_per_file"][0], cfg["simple_per_file"][1] + 1)
@@ -866,7 +878,7 @@ class Gen:
                 self.features.add("soap-headers")
             w.operations.append(op)
         w.share_prefix = share_prefix
-        if len(self.files) >= 2 and _random.Random("inline:" + wuri + str(len(self.files))).random() < self.cfg.get("p_inline_schemas", 0.0):
+        if getattr(self, "inline_all", False):
             # one WSDL, several inline schemas (one per namespace) and no sibling files; the order of the schemas is arbitrary
             ss.inline_all = True
             order = list(range(len(self.files)))
